@@ -378,4 +378,48 @@ def run(ctx):
             for cf, cb, csp, why, chain in bad:
                 run.finding(Finding(R6, cf.id, "requested receiver address recorded from %s" % why.split(" (")[0], site=":".join(csp.split(":")[:2]),
                                     detail="%s -> ... -> lock_tx_context stores slate.payment_proof.receiver_address; argument is %s; chain %s" % (pp.short(cf.id), why, [pp.short(x[0]) for x in chain])))
+    R7 = "C11.R7"
+    run.rule(R7, "the proof check cannot be side-stepped by re-labelling the reply: the finalize arm without a proof check (invoice) is closed to a send, because update_stored_tx ties the entry type to the flow and fails without an entry", floor=2)
+    from .shared import flow_tied_entry
+    flow_tied_entry(ctx, R7)
+    R8 = "C11.R8"
+    run.rule(R8, "one sender proof key per transaction: once a transaction exists (functions working on its Context), the sender's proof address is derived from the transaction's own account (Context / log entry), never from whichever account is active", floor=3)
+    AFD = c.LW + "address::address_from_derivation_path"
+    CTXT = c.LW + "types::Context"
+    PKI = c.WB + "parent_key_id"
+
+    def _acct_ok(f, o, depth=0):
+        """(ok, why) for the account operand o in f."""
+        pr = vf.producers(f, o)
+        if any(x[0] in ("call", "mutcall") and x[1] == PKI for x in pr):
+            return False, "the active account (WalletBackend::parent_key_id)"
+        if any(x[0] == "field" and x[2] == "parent_key_id" and x[1] in (CTXT, c.LW + "types::TxLogEntry") for x in pr):
+            return True, "record"
+        args = [x[1] for x in pr if x[0] == "arg"]
+        if args and depth < 2:
+            for cf_ in ctx.cg.callers(f.id):
+                g = db.fns.get(cf_)
+                if g is None or non_production(cf_):
+                    continue
+                for _cb, t in cfg.find_calls(g, f.id):
+                    for ai in args:
+                        if ai - 1 < len(t["a"]):
+                            ok, why = _acct_ok(g, t["a"][ai - 1], depth + 1)
+                            if not ok:
+                                return False, "%s (passed by %s)" % (why, pp.short(cf_))
+            return True, "parameter, callers pass the record"
+        return False, "unrecognised source %s" % sorted(pr, key=str)[:3]
+
+    for fid, f in sorted(db.fns.items()):
+        if non_production(fid):
+            continue
+        if not any(CTXT in (f.locals[i].get("ty") or "") for i in range(1, f.argc + 1)):
+            continue
+        for b, t in f.calls():
+            if t.get("f") != AFD:
+                continue
+            ok, why = _acct_ok(f, t["a"][1])
+            run.instance(R8, {"fn": pp.short(fid), "obligation": "account of the sender's proof key comes from the transaction's record", "source": why, "site": c.site_of(f, b)}, held=ok)
+            if not ok:
+                run.finding(Finding(R8, fid, "the sender's proof key is derived from %s instead of the transaction's own account: for a send from a non-active account the stored sender address/signature do not match the slate and the exported proof does not verify" % why.split(" (passed")[0], site=c.site_of(f, b), detail=why))
     run.not_decided += ["unforgeability of ed25519", "the amount arithmetic in retrieve_payment_proof", "that the exported proof *verifies* (value-level)"]
